@@ -16,6 +16,7 @@ package flow
 
 import (
 	"fmt"
+	"math"
 	"reflect"
 	"sync"
 
@@ -643,6 +644,9 @@ func IsValidRule(rule *Rule) error {
 	}
 	if rule.Resource == "" {
 		return errors.New("empty Resource")
+	}
+	if math.IsNaN(rule.Threshold) {
+		return errors.New("NaN Threshold")
 	}
 	if rule.Threshold < 0 {
 		return errors.New("negative Threshold")
